@@ -198,6 +198,7 @@ static void exec_action(gw_edge *e);
 
 static const char *logical_topic(const char *t, char *buf, size_t n) {
     if (!t) return "";
+    if (!strcmp(t, "LIBMODULE_MOD_POISONPILL")) return "PILL";
     if (!strncmp(t, "LIBMODULE_", 10)) { snprintf(buf, n, "%s", t + 10); return buf; }
     return t;
 }
@@ -366,6 +367,23 @@ static int gw_is_nontrivial(const int *prog, int n) {
 static int is_clean(int s) { return !strncmp(gw_states[s].proj, "ctx:none", 8) && !strstr(gw_states[s].proj, ":zombie:") && !strstr(gw_states[s].proj, ":idle:") &&
                                     !strstr(gw_states[s].proj, ":running:") && !strstr(gw_states[s].proj, ":paused:") && !strstr(gw_states[s].proj, ":stopped:") && strstr(gw_states[s].proj, "|d0|-"); }
 
+/* canned set-up (Core.tla InitOf): context registered, all modules registered, first dispatch (loop started) */
+static const char *setup_name = "";
+static void do_setup(void) {
+    if (!setup_name[0]) return;
+    m_ctx_register("vctx", ctx_persist ? M_CTX_PERSIST : 0, NULL);
+    for (int m = 0; m < nmods; m++) {
+        m_mod_hook_t hk = {0};
+        hk.on_evt = cb_evt;
+        if (strchr(hooks[m], 'e')) hk.on_eval = cb_eval;
+        if (strchr(hooks[m], 's')) hk.on_start = cb_start;
+        if (strchr(hooks[m], 'x')) hk.on_stop = cb_stop;
+        m_mod_register(RN[m], &H[m], &hk, mflags(m), NULL);
+    }
+    batch_armed = 0;
+    m_ctx_dispatch();
+}
+
 static void on_alarm(int sig) { failed = 0; fail("core-hang", "program did not finish within 20 s (blocked or looping)"); }
 
 static int gw_run(const int *prog, int n) {
@@ -377,6 +395,12 @@ static int gw_run(const int *prog, int n) {
     cur_state = gw_edges[prog[0]].src;
     in_program = 1;
     alarm(20);
+    if (setup_name[0]) {
+        failed = 1;          /* callbacks during the set-up are not part of the program */
+        do_setup();
+        failed = 0;
+        compare("-", 0);     /* the set-up must have produced the configuration's initial state */
+    }
     while (cursor < PN && !failed) {
         gw_cur_step = cursor;
         gw_edge *e = &gw_edges[P[cursor]];
@@ -445,6 +469,7 @@ int main(int argc, char **argv) {
     ctx_persist = getenv("VP_CTXPERSIST") && atoi(getenv("VP_CTXPERSIST"));
     if (getenv("VP_CAP")) cap = atoi(getenv("VP_CAP"));
     if (getenv("VP_MAXPAY")) maxpay = atoi(getenv("VP_MAXPAY"));
+    if (getenv("VP_SETUP")) setup_name = getenv("VP_SETUP");
     vp_alloc_install();
     signal(SIGALRM, on_alarm);
     measure_order();
